@@ -17,6 +17,21 @@ pub fn get_current_epoch(deps: Deps) -> Result<u64, ContractError> {
     Ok(epoch_response.epoch.id.u64())
 }
 
+/// Takes the global weight snapshot for the given epoch if nobody has taken it yet. Called before
+/// any change to the global weight, so that the snapshot for an epoch always reflects the weights
+/// the addresses had when the epoch started.
+pub fn snapshot_global_weight_if_missing(
+    storage: &mut dyn cosmwasm_std::Storage,
+    epoch: u64,
+) -> StdResult<()> {
+    use crate::state::{GLOBAL_WEIGHT, GLOBAL_WEIGHT_SNAPSHOT};
+    if GLOBAL_WEIGHT_SNAPSHOT.may_load(storage, epoch)?.is_none() {
+        let global_weight = GLOBAL_WEIGHT.may_load(storage)?.unwrap_or_default();
+        GLOBAL_WEIGHT_SNAPSHOT.save(storage, epoch, &global_weight)?;
+    }
+    Ok(())
+}
+
 /// Gets the flows that are available for the current epoch, i.e. those flows that started either on
 /// the epoch provided or before it.
 pub fn get_available_flows(deps: Deps, epoch: &u64) -> Result<Vec<Flow>, ContractError> {
